@@ -376,8 +376,16 @@ pub fn judge_cli(o: &cli::CliOut, what: &str, out: &mut Out) {
     }
 }
 
+pub const KIND_OPTIONS: &str = "\u{1}OPTIONS";
+
 impl StateCheck for C16 {
     fn check(&self, text: &str, _l: &[Line], out: &mut Out) {
+        if text.starts_with(KIND_OPTIONS) {
+            numeric_options_in_process(out);
+            options_leg(out);
+            out.regime("options_leg");
+            return;
+        }
         let (kind, body) = if let Some(b) = text.strip_prefix(KIND_FACT) { ("factors", b) } else if let Some(b) = text.strip_prefix(KIND_COMP) { ("components", b) } else { ("components", text) };
         let class = if kind == "factors" { pipeline_factors(body, out) } else { pipeline_components(body, out) };
         out.regime(format!("{kind}:{}", class.split(':').next().unwrap_or("")));
@@ -491,11 +499,8 @@ pub fn run(ctx: &Ctx) -> i32 {
         explore(ctx, "token soups: one line of <= 5 tokens over 14 tokens", Soup { toks: toks.iter().map(|s| s.to_string()).collect(), max: 5 }, light.clone(), shared.clone());
         let _ = al;
     }
-    // numeric options and environment faults
-    let mut out = Out::default();
-    numeric_options_in_process(&mut out);
-    options_leg(&mut out);
-    merge(&shared, "(numeric options / command-line leg)", 0, 0, (0, 0), &mut out, None);
+    // numeric options and environment faults (one state, so that it is replayable like any other)
+    explore(ctx, "numeric options in-process and on the command line; unreadable / non-UTF-8 / missing files", Layered { slots: vec![vec![Letter::one(Line::Raw(KIND_OPTIONS.to_string()))]], bases: vec![("options".to_string(), String::new())] }, light.clone(), shared.clone());
     let exits: Vec<u64> = CLI_EXITS.iter().map(|a| a.load(Ordering::Relaxed)).collect();
     let ncls = classes.lock().unwrap().len();
     // replays always include the out-of-process leg
@@ -507,7 +512,7 @@ pub fn run(ctx: &Ctx) -> i32 {
             level: "fault_enumeration",
             rule: "base files = shipped component files + 8 synthesized files covering every component kind, legacy lines, metadata, output-before-electricity, auxiliaries only, two demand lines + shipped and synthesized factor files; faults: line {delete, duplicate, swap, truncate after}, field {delete, duplicate, swap, truncate after, replace by each of 46 menu tokens}, byte {truncate at / insert one of 7 characters at every offset} (small bases); deviation bound 1 (quick) / 2 (thorough) + token soups; every file through the in-process pipeline under catch_unwind, the real binary on every file of the small bases and on one representative per outcome class; numeric and environment options; non-trivial = file not accepted".into(),
             assumptions: strs(&["10 s horizon per process", "debug build of the binary (as the repository's tests use)", "non-UTF-8 argv is outside what the OS lets through here", "middle value fields of 12-step series are represented by the first six, the middle and the last two fields"]),
-            required_regimes: strs(&["components:ok", "components:parse", "components:eval", "factors:ok", "factors:factors", "cli_run"]),
+            required_regimes: strs(&["components:ok", "components:parse", "components:eval", "factors:ok", "factors:factors", "cli_run", "options_leg"]),
             extra: serde_json::json!({"cli_runs": CLI_RUNS.load(Ordering::Relaxed), "cli_exit_codes": {"0": exits[0], "1": exits[1], "64": exits[2], "65": exits[3], "73": exits[4], "74": exits[5]}, "outcome_classes": ncls}),
         },
     )
